@@ -226,6 +226,10 @@ func (e *Exec) loadPath(st *State, v Value, path []PathElem) Value {
 			v = x.F[pe.I]
 		case *ArrayV:
 			if pe.Sym != nil {
+				if cv, ok := st.conc[pe.Sym.ID]; ok && int(cv) < len(x.E) {
+					v = x.E[int(cv)]
+					continue
+				}
 				return e.loadSym(st, x, pe.Sym, path[i+1:])
 			}
 			v = x.E[pe.I]
@@ -316,6 +320,11 @@ func (e *Exec) storePath(st *State, cur Value, path []PathElem, v Value, top boo
 		nf[pe.I] = e.storePath(st, x.F[pe.I], path[1:], v, false)
 		return &StructV{F: nf}
 	case *ArrayV:
+		if pe.Sym != nil {
+			if cv, ok := st.conc[pe.Sym.ID]; ok && int(cv) < len(x.E) {
+				pe = PathElem{I: int(cv)}
+			}
+		}
 		if pe.Sym != nil {
 			ne := make([]Value, len(x.E))
 			for i := range x.E {
